@@ -73,6 +73,9 @@ func prChild(c *vf.Ctx, part int, race bool, only string, onlyNo int) {
 		}
 		return
 	}
+	if part == 0 {
+		prRedundantAll(c, rep, race)
+	}
 	for r := 0; r < rounds; r++ {
 		prRound(c, rep, part*1000000+r, race)
 	}
@@ -118,6 +121,9 @@ func prRound(c *vf.Ctx, rep *reporter, no int, race bool) {
 			guard(&panics, cb.unsubscribeF)
 			cb.unsubRet = tick()
 			cb.unsubCall = uc
+			if uc%2 == 0 {
+				guard(&panics, cb.unsubscribeF) // repeated unsubscribe: must not affect any other callback
+			}
 		}
 	}
 	var cbs []*prCB
